@@ -41,7 +41,9 @@ impl Labels {
         let mut times = Vec::with_capacity(lines.len());
 
         // start/end times are multiplied with 1e+7
-        let rate = sampling_rate as f64 / (fperiod as f64 * 1e+7);
+        // (time * sampling_rate) and (fperiod * 1e+7) are exact in f64, so the quotient is correctly rounded
+        // and a time on an exact half-frame boundary stays on it
+        let to_frame = |time: f64| time * sampling_rate as f64 / (fperiod as f64 * 1e+7);
 
         for line in lines {
             let line = line.as_ref();
@@ -59,8 +61,8 @@ impl Labels {
                 let mut start: f64 = first.parse()?;
                 let mut end: f64 = second.parse()?;
 
-                start *= rate;
-                end *= rate;
+                start = to_frame(start);
+                end = to_frame(end);
 
                 let label = third.parse()?;
 
